@@ -408,14 +408,15 @@ def tcp_frames(stream: bytes):
 def rr_hazard(rr: "RR") -> str:
     """what is unusual about this record's wire RDATA, most specific first:
        badname   the type has a layout but RDATA does not follow it (e.g. a name field that loops / is truncated)
-       ptrlike   an octet >= 0xC0 occurs outside the record's name fields (numeric field, character-string, opaque data)
+       ptrlike   an octet >= 0xC0 occurs in RDATA other than as the start of a compression pointer ending a name
+                 (numeric field, character-string, opaque data, or inside a label)
        multicomp two or more compressed names inside RDATA
        comp      one compressed name inside RDATA
        plain     none of these"""
     if not rr.parsed:
         return "badname"
     if rr.type in LAYOUT:
-        if any(k == "b" and any(c >= 0xC0 for c in v) for k, v in rr.fields):
+        if any(any(c >= 0xC0 for c in v) if k == "b" else any(c >= 0xC0 for l in v for c in l) for k, v in rr.fields):
             return "ptrlike"
     elif any(c >= 0xC0 for c in rr.rdata):
         return "ptrlike"
